@@ -18,6 +18,11 @@ RULE = ("lists of 1..5 random well-formed trees (2..12 tips, rooted / unrooted /
         "file: one tree per line, blank lines, whitespace-only lines, trailing blanks, CRLF, no final newline, trees "
         "broken over several lines after each comma, two trees on one line; files of 5..40 KB (2..5 trees of 100..330 tips with "
         "lengths) wrapped at random commas so that statements straddle the refills of bufio's 4096-byte buffer; every list is "
+        "a deterministic buffer-boundary stream (the ';' ending a tree, the blank/tab/CR/LF after it, the '(' of the next tree at "
+        "byte B-2..B+1 of a line longer than bufio's buffer, B = 4096, 8192, 65536 thorough; three trees per file, also as second "
+        "line); numbers: dyadic, or (16% of the lists) full-precision binary64 values -- random 52-bit mantissas over 40 binades, "
+        "one ulp beside short decimals, results of float arithmetic (0.1*3, 1/3, 0.1+0.2) -- on every chain, "
+        "compared exactly; every list is "
         "also written from the trees as BUILT through the API (parent slots at random positions, as after a reroot) to PhyloXML "
         "and Nexus, and to Nexus from records whose Id was never set (all TREE statements named tree0); plus lists outside the quantifier (Nexus "
         "keywords in any case as labels, e.g. end, TREE, taxlabelſ) for the correspondence only. A case is non-trivial "
@@ -69,7 +74,40 @@ def names_for(rng, n, illegal=False):
         out.append(x)
     return out
 
-def make_tree(rng, names):
+import struct as _struct, math as _math
+
+def full_double(rng, unit=False):
+    """a binary64 value whose shortest decimal form needs 16-17 significant digits (most of the time)"""
+    r = rng.random()
+    if r < 0.45:
+        e = rng.randint(-20, 20) if not unit else rng.randint(-12, -1)
+        bits = ((1023 + e) << 52) | rng.getrandbits(52)
+        x = _struct.unpack(">d", _struct.pack(">Q", bits))[0]
+    elif r < 0.65:
+        base = rng.choice([0.1, 0.2, 0.3, 0.7, 1.1, 2.5, 0.05, 123.456, 1e-5, 0.999])
+        x = _math.nextafter(base, rng.choice([0.0, 1e9]))
+        if unit: x = min(x, 1.0)
+    elif r < 0.85:
+        a, b = rng.choice([(0.1, 3), (0.1, 7), (0.7, 3), (1.1, 1.1), (0.3, 3), (2.2, 3)])
+        x = a * b if not unit else (a * b) % 1.0
+    else:
+        x = rng.choice([1.0 / 3, 2.0 / 3, 1.0 / 7, 0.30000000000000004, 0.1 + 0.2, 1e-7 / 3, 1e22 / 3 if not unit else 0.9999999999999999, 0.9999999999999999])
+    if x == -1.0 or x != x:
+        x = 0.5
+    return Fraction(x)
+
+def make_tree(rng, names, numbers="dyadic"):
+    t = _make_tree(rng, names)
+    if numbers == "full":
+        for x in preorder(t):
+            for e, c in kids(x):
+                if e["len"] is not None and rng.random() < 0.6:
+                    e["len"] = full_double(rng)
+                if e["sup"] is not None and rng.random() < 0.6:
+                    e["sup"] = full_double(rng, unit=True)
+    return t
+
+def _make_tree(rng, names):
     g = Gen(rng)
     t = g.tree(ntips=len(names), maxdeg=5, lenmode=rng.choice(["all", "mixed", "none"]), supmode=rng.choice(["mixed", "none", "all"]),
                inner_names=rng.random() < 0.3, comments=False, up_random=rng.random() < 0.5)
@@ -143,6 +181,56 @@ def big_case(rng):
          "breakat": breakat, "nsjson": ns_json(trees[0])}
     return {"sx": sx(o), "meta": {"ntrees": k, "layout": "bigwrap", "translate": o["translate"], "taxa": "same", "labels": "legal"}}
 
+def _tip(n):
+    return {"name": n, "coms": [], "slots": [None]}
+def _edge():
+    return {"len": None, "sup": None, "pv": None, "coms": []}
+def _pad_tree(i, total):
+    """a names-only tree on the taxa P<i>, a, b, c whose Newick text has exactly [total] bytes (by padding the first name)"""
+    t = {"name": "", "coms": [], "slots": [(_edge(), _tip("P")), (_edge(), _tip("a")),
+                                            (_edge(), {"name": "", "coms": [], "slots": [None, (_edge(), _tip("b")), (_edge(), _tip("c"))]})]}
+    base = len(newick(t).encode())
+    assert total >= base
+    t["slots"][0][1]["name"] = "P" + "p" * (total - base)
+    assert len(newick(t).encode()) == total
+    return t
+
+def boundary_cases(tier):
+    """deterministic buffer-boundary stream for the multi-tree Newick reader (bufio.ReadLine hands a line longer than its
+    4096-byte buffer over in chunks counted from the start of the line): the ';' ending a tree, the blank / tab / CR / LF
+    after it and the '(' of the next tree at byte B-2..B+1 of the line resp. file, B = 4096, 8192 (65536 thorough); three
+    trees per file; the same trees go through every conversion chain"""
+    out = []
+    Bs = [4096, 8192] + ([65536] if tier == "thorough" else [])
+    plans = [("semi", " \n"), ("semi", "\t \n"), ("semi", "\n"), ("semi", "\r\n"),
+             ("blank", "\t\n"), ("nl", "\r\n"), ("open", " \n")]
+    if tier == "thorough":
+        plans += [("semi", "  \t\n"), ("blank", " \n"), ("nl", "\n"), ("open", "\n")]
+    if tier == "search":
+        plans = plans[:3]
+    small = lambda: {"name": "", "coms": [], "slots": [(_edge(), _tip("P")), (_edge(), _tip("b")), (_edge(), _tip("a")), (_edge(), _tip("c"))]}
+    for B in Bs:
+        for d in (-2, -1, 0, 1):
+            for what, sep in plans:
+                # byte number B+d (counted from 1) of the first line is the target byte
+                if what == "semi":    n1 = B + d
+                elif what in ("blank", "nl"): n1 = B + d - 1
+                else:                 n1 = B + d - 1 - len(sep)
+                for second in (False, True):
+                    if second and (B != 4096 or what != "semi"):
+                        continue
+                    first = _pad_tree(0, n1)
+                    trees = [small(), first, small()] if second else [first, small(), small()]
+                    seps = ["\n", sep, "\n"] if second else [sep, "\n", "\n"]
+                    # same taxa in every tree: the small trees carry the padded name too
+                    for t in trees:
+                        t["slots"][0][1]["name"] = first["slots"][0][1]["name"]
+                    o = {"trees": [T(t) for t in trees], "translate": (d % 2 == 0), "seps": seps, "breaks": False,
+                         "nsjson": ns_json(trees[0])}
+                    out.append({"sx": sx(o), "meta": {"ntrees": 3, "layout": "boundary:" + what, "B": B, "delta": d,
+                                                      "translate": o["translate"], "taxa": "same", "labels": "legal"}})
+    return out
+
 def gen(rng, tier):
     n = {"quick": 500, "thorough": 30000, "search": 300}[tier]
     out = []
@@ -154,19 +242,21 @@ def gen(rng, tier):
         names = names_for(rng, ntips, illegal)
         differ = k > 1 and rng.random() < 0.1
         trees = []
+        numbers = "full" if rng.random() < 0.16 else "dyadic"
         for i in range(k):
             nm = names
             if differ and i > 0:
                 nm = rng.sample(names, max(2, len(names) - rng.choice([1, 2]))) if rng.random() < 0.6 and len(names) > 2 else names + ["extra%d" % i]
-            trees.append(make_tree(rng, nm))
+            trees.append(make_tree(rng, nm, numbers))
         layout = rng.choice(LAYOUTS) if k > 1 else rng.choice(["lines", "nofinal", "trail", "breaks", "crlf"])
         if layout == "sameline" and k < 2:
             layout = "lines"
         o = {"trees": [T(t) for t in trees], "translate": rng.random() < 0.5, "seps": seps_for(rng, layout, k),
              "breaks": layout == "breaks", "nsjson": ns_json(trees[0])}
         out.append({"sx": sx(o), "meta": {"ntrees": k, "layout": layout, "translate": o["translate"], "taxa": "differ" if differ else "same",
-                                          "labels": "with-keywords" if illegal else "legal"}})
+                                          "labels": "with-keywords" if illegal else "legal", "numbers": numbers}})
     # the big files are spread over the chunks of 200 cases (one worker and judge process per chunk)
+    bigs = bigs + boundary_cases(tier)
     step = max(1, len(out) // max(1, len(bigs)))
     for j, bc in enumerate(bigs):
         out.insert(min(len(out), j * (step + 1)), bc)
